@@ -38,7 +38,11 @@ def run(tier, seed):
             fails += 1
     if fails:
         return 2
-    # 3. harness
-    vlib.build("rel")
+    # 3. harness in every configuration the checks use (a configuration that cannot be built is reported by the check that
+    #    needs it, not here: e.g. force-32bits failing to compile is a violation of C17), and the instruction tracer of C19
+    res = vlib.build_many(["rel", "sse41", "avx", "avx2", "dbg", "relchk", "f32"], allow_fail=("f32",))
+    print("[setup] harness builds: %s" % {k: ("ok" if isinstance(v, str) else "FAILED") for k, v in res.items()})
+    import props.c19 as c19
+    c19.build_tracer()
     print("[setup] ok")
     return 0
